@@ -65,7 +65,7 @@ type Case struct {
 	Steps []Step `json:"steps"`
 }
 
-var kinds = []string{"direct", "host", "catchall", "ignore-add", "ignore-remove", "redirect", "notfound", "nomethod", "options", "lookup", "lookup-tsr", "host-infix-tsr", "double-infix-tsr", "infix", "hijack"}
+var kinds = []string{"direct", "host", "catchall", "ignore-add", "ignore-remove", "redirect", "notfound", "nomethod", "options", "lookup", "lookup-tsr", "host-infix-tsr", "double-infix-tsr", "infix", "hijack", "infix-empty-seg", "double-infix-empty-seg"}
 
 type expKey struct{}
 
@@ -81,6 +81,10 @@ type exp struct {
 	clone     string
 	viaLookup bool
 	sameQuery bool
+	// loose: a request with an empty path segment in the region an infix catch-all scans. Which handler answers it is C01's
+	// business; here only the per-request data (request, query, headers, writer state) is judged, and what the request leaves
+	// behind in the pools.
+	loose bool
 }
 
 var tokRe = regexp.MustCompile(`t[0-9_]+x`)
@@ -137,26 +141,33 @@ func (h *harness) inspect(where string, c fox.Context, entry bool) *exp {
 	if e.req != req {
 		h.fail("%s: Request() is not the request that was passed in", pre)
 	}
-	if got := c.Pattern(); got != e.pattern {
-		h.fail("%s: Pattern() = %q, want %q", pre, got, e.pattern)
-	}
-	if (c.Route() == nil) != (e.pattern == "") || (c.Route() != nil && c.Route().Pattern() != e.pattern) {
-		h.fail("%s: Route() = %v, want pattern %q", pre, c.Route(), e.pattern)
-	}
-	if got := c.Scope(); got != e.scope {
-		h.fail("%s: Scope() = %d, want %d", pre, got, e.scope)
+	if !e.loose {
+		if got := c.Pattern(); got != e.pattern {
+			h.fail("%s: Pattern() = %q, want %q", pre, got, e.pattern)
+		}
+		if (c.Route() == nil) != (e.pattern == "") || (c.Route() != nil && c.Route().Pattern() != e.pattern) {
+			h.fail("%s: Route() = %v, want pattern %q", pre, c.Route(), e.pattern)
+		}
+		if got := c.Scope(); got != e.scope {
+			h.fail("%s: Scope() = %d, want %d", pre, got, e.scope)
+		}
 	}
 	var keys []string
 	for p := range c.Params() {
 		keys = append(keys, p.Key)
-		if p.Value != e.tok {
+		if !strings.Contains(p.Value, e.tok) && !(e.loose && p.Value == "") {
+			h.fail("%s: Params() yields %s=%q, which is not this request's value %q", pre, p.Key, p.Value, e.tok)
+		} else if p.Value != e.tok && !e.loose {
 			h.fail("%s: Params() yields %s=%q, which is not this request's value %q", pre, p.Key, p.Value, e.tok)
 		}
 	}
-	if strings.Join(keys, ",") != strings.Join(e.params, ",") {
+	if strings.Join(keys, ",") != strings.Join(e.params, ",") && !e.loose {
 		h.fail("%s: Params() keys %v, want %v", pre, keys, e.params)
 	}
 	for _, k := range []string{"tok", "tok2"} {
+		if e.loose {
+			break
+		}
 		want := ""
 		for _, p := range e.params {
 			if p == k {
@@ -212,6 +223,9 @@ func (h *harness) inspect(where string, c fox.Context, entry bool) *exp {
 }
 
 func (h *harness) takeClone(c fox.Context, e *exp, when string) {
+	if e.loose {
+		return
+	}
 	cl := c.Clone()
 	w := c.Writer()
 	h.mu.Lock()
@@ -329,6 +343,10 @@ func buildStep(s Step, tok string, n int) (*http.Request, *exp) {
 		path, e.pattern, e.params = "/in/"+tok+"/x/"+tok, "/in/*{tok}/x/{tok2}", []string{"tok", "tok2"}
 	case "hijack":
 		path, e.pattern, e.params, e.size = "/hj/"+tok, "/hj/{tok}", []string{"tok"}, -2
+	case "infix-empty-seg":
+		path, e.loose = "/in/"+tok+"//x/"+tok, true
+	case "double-infix-empty-seg":
+		path, e.loose = "/dd/"+tok+"//m/"+tok+"//end", true
 	case "redirect":
 		path, e.scope, e.status, e.size = "/rd/"+tok, fox.RedirectHandler, http.StatusMovedPermanently, -1
 	case "notfound":
